@@ -100,7 +100,18 @@ impl<'a> Shrinker<'a> {
                 }
             }
             if let OpKind::Fill { len, .. } | OpKind::FillVsElem { len, .. } = cur.ops[oi].kind.clone() {
-                for nl in 0..len {
+                let mut cands: Vec<usize> = (0..len.min(6)).collect();
+                let mut h = len / 2;
+                while h > 5 {
+                    cands.push(len - h);
+                    h /= 2;
+                }
+                cands.sort_unstable();
+                cands.dedup();
+                for nl in cands {
+                    if !self.budget() {
+                        break;
+                    }
                     let mut c = cur.clone();
                     match &mut c.ops[oi].kind {
                         OpKind::Fill { len, .. } | OpKind::FillVsElem { len, .. } => *len = nl,
